@@ -7,7 +7,7 @@ import itertools
 
 
 class Node:
-    def __init__(self, kind, name, children=None, pre=0, post=0, trailing=False, typedef=False):
+    def __init__(self, kind, name, children=None, pre=0, post=0, trailing=False, typedef=False, anon=False):
         self.kind = kind  # ns | ext | class | struct | union
         self.name = name
         self.children = children or []
@@ -15,9 +15,10 @@ class Node:
         self.post = post  # leaf items after the children
         self.trailing = trailing
         self.typedef = typedef
+        self.anon = anon  # an unnamed struct/union/class: the visitor knows it as "<anon>"
 
     def names(self):
-        out = [self.name]
+        out = ["<anon>" if self.anon else self.name]
         for c in self.children:
             out.extend(c.names())
         return out
@@ -89,7 +90,7 @@ def render(node, in_class=False, indent=0):
         lines.append('%sextern "%s" {' % (pad, node.name))
         inner_class = False
     else:
-        head = ("typedef " if node.typedef else "") + "%s %s {" % (k, node.name)
+        head = ("typedef " if node.typedef else "") + ("%s {" % k if node.anon else "%s %s {" % (k, node.name))
         lines.append(pad + head)
         inner_class = True
     for i in range(node.pre):
@@ -105,7 +106,7 @@ def render(node, in_class=False, indent=0):
     else:
         if node.typedef:
             lines.append(pad + "} T_%s;" % node.name)
-        elif node.trailing:
+        elif node.trailing or (node.anon and not in_class):
             lines.append(pad + "} d_%s, *p_%s;" % (node.name, node.name))
         else:
             lines.append(pad + "};")
@@ -134,7 +135,8 @@ def random_tree(rng, budget, counter, in_class=False, depth=0):
         budget -= sum(len(c.names()) for c in children)
         is_cls = k in ("class", "struct", "union")
         node = Node(k, name, children, pre=rng.randint(0, 2), post=rng.randint(0, 2),
-                    trailing=is_cls and rng.random() < 0.3, typedef=is_cls and rng.random() < 0.15)
+                    trailing=is_cls and rng.random() < 0.3, typedef=is_cls and rng.random() < 0.15,
+                    anon=is_cls and rng.random() < 0.15)
         roots.append(node)
     return roots
 
